@@ -15,7 +15,7 @@ using namespace oasl;
 static std::string g_outdir;
 
 // ---------------------------------------------------------------- child runner that keeps partial output
-static std::string run_child(std::function<void(FILE*)> f, std::string& status, unsigned seconds = 20) {
+static std::string run_child(std::function<void(FILE*)> f, std::string& status, unsigned seconds = 60) {
     int fd[2];
     status = "ok";
     if (pipe(fd) != 0) {
